@@ -579,12 +579,12 @@ func famC09(rn *Runner) {
 				d2, kind = append(append([]byte{}, data[:p]...), data[p+1:]...), "byte-deleted"
 			case 2:
 				p := r.Intn(len(data))
-				ins := pick(r, []string{"<", ">", "&", "&bogus;", "\x01", "\xff", "</zz>", "\"", "<x>", "]]>"})
+				ins := pick(r, []string{"<", ">", "&", "&bogus;", "\x01", "\xff", "</zz>", "\"", "<x>", "]]>", "&nbsp;", "&eacute;", "&copy;", "&mdash;", "&AMP;", "&#0;", "&#xD800;", "&#x110000;"})
 				d2, kind = append(append(append([]byte{}, data[:p]...), ins...), data[p:]...), "inserted:"+fmt.Sprintf("%q", ins)
 			case 3:
 				d2, kind = bytes.Replace(data, []byte("</"), []byte("</zz"), 1), "mismatched-end-tag"
 			case 4:
-				d2, kind = bytes.Replace(data, []byte("&amp;"), []byte("&nosuch;"), 1), "undefined-entity"
+				d2, kind = bytes.Replace(data, []byte("&amp;"), []byte(pick(r, []string{"&nosuch;", "&nbsp;", "&eacute;", "&hellip;", "&Amp;"})), 1), "undefined-entity"
 			case 5:
 				d2, kind = bytes.Replace(data, []byte(">"), []byte(">\x02"), 1), "invalid-character"
 			default:
